@@ -742,6 +742,13 @@ def directed_personas(year, seed, n):
                                          '1040_recovery_rebate_credit_wkst.dependents_ssn_before_due_date': '1' if st_ == 'HOH' else '0',
                                          '1040_recovery_rebate_credit_wkst.eip_3_amount': f'{full_ * r.uniform(0.6, 0.9):.2f}'})
             out.append(('F1r', p))
+        # a homeowner with a Form 1098 (small interest, nothing refunded) who takes the standard deduction: the statement is on the
+        # return's books although no schedule uses it
+        p = plain_persona(year, r.choice(['S', 'MFJ', 'HOH']), round(r.uniform(50000, 90000), 2), key=f'dirhome:{seed}:{k}', n_1098=1,
+                          f1098=[{'box_1': round(r.uniform(300, 2500), 2), 'box_6': 0.0, 'box_4': 0.0, 'box_5': 0.0}])
+        if p.status == 'HOH':
+            p.ndep, p.dep_ctc, p.n_ctc = 1, [False], 0
+        out.append(('F3h', p))
         # a joint return where ONE employer paid more than 200,000 (and withheld the additional 0.9 % above it) while the couple's
         # Medicare wages stay below the joint threshold of 250,000: Form 8959 is required for the withholding, no additional tax is due
         w1 = round(r.uniform(205000, 235000), 2)
